@@ -31,6 +31,6 @@ TEXT = ('Rocq theorems (Props/C20.v, 31 statements, closed under the global cont
         'old-format framings are parsed to the same packet. The rules before the repairs (one-pass flags, five-octet time, latin-1 read-back) are '
         'refuted with witnesses. Tie: byte-for-byte correspondence of the extracted model with the real code on generated messages (export, import '
         'state, re-export, codecs, contents, __or__ on arbitrary packet sequences) + direct property oracles + regression witnesses of the five '
-        'repaired defects + pinned source text of PGPMessage.__iter__ / __bytearray__.',
+        'repaired defects + pinned source text of PGPMessage.__iter__ / __bytearray__. A packet read WITHOUT a length field is kept and written with one (C20_indeterminate_length_reframed, old rule refuted; repair b07b4af): the foreign suite signs imported foreign messages (then-signed) and frames literals of 64 KiB and more without length field.',
         'DESIGN.md 5 C20',
         'machine-checked proof in Rocq (Coq 8.16.1) + extracted-model correspondence + direct property oracles')
